@@ -710,6 +710,10 @@ func (l *Lexer) errorf(msg string, param ...interface{}) *Error {
 }
 
 func (l *Lexer) errorfAtPosition(pos, end token.Pos, msg string, param ...interface{}) *Error {
+	// An error range never extends past the end of input (e.g. an escape sequence cut off by <eof>).
+	if int(end) > len(l.Buffer) {
+		end = token.Pos(len(l.Buffer))
+	}
 	return &Error{
 		Message:  fmt.Sprintf(msg, param...),
 		Position: l.Position(pos, end),
